@@ -53,6 +53,17 @@ func (p *Prog) predicateView(i *ssa.If) (*ssa.If, bool) {
 	case *ssa.BinOp, *ssa.UnOp:
 		cond, _ := substParams(sf, call.Call.Args, ret.Results[0], 0)
 		return &ssa.If{Cond: cond}, flip
+	case *ssa.Call:
+		// a predicate that returns another predicate's answer (`isQueueing()` → `s.queueFlag.any()` → `q != 0`)
+		if p.viewDepth < 3 {
+			p.viewDepth++
+			inner, flip2 := p.predicateView(&ssa.If{Cond: ret.Results[0]})
+			p.viewDepth--
+			if inner != nil {
+				cond, _ := substParams(sf, call.Call.Args, inner.Cond, 0)
+				return &ssa.If{Cond: cond}, flip != flip2
+			}
+		}
 	}
 	return nil, false
 }
